@@ -36,6 +36,12 @@ def main(prop: str, tier: str) -> int:
             rep.cov['traces_validated_against_impl'] += p.get('behaviours', 0)
         except ImportError:
             pass
+    from checks import comments
+    cm = comments.run(rep, 'quick', 'C19')
+    parts['comment_claims'] = {k: v for k, v in cm.items() if k != 'sample'}
+    rep.cov['states'] += cm.get('states', 0)
+    rep.cov['transitions'] += cm.get('transitions', 0)
+    rep.cov['traces_validated_against_impl'] += cm.get('behaviours', 0)
     rep.cov['parts'] = parts
     return rep.finish()
 
